@@ -848,6 +848,34 @@ fn check_state(r: &Req, a: &CscMatrix<f64>, out: &str, logical: bool) -> Result<
 // whose permuted matrix has no stored (0,0) entry are ordinary cases of every oracle below —
 // no tag, no exemption.  `gen_units` submits the minimal instance with `expect=zeropivot`, so
 // the old behaviour (Ok with D[0] = 1, x = (1/3,1/3)) alarms on three independent checks.
+/// oracle clause for the empty matrix: the object rendered by `fmt_state` is `Ok` with empty factors
+fn empty_state_ok(out: &str, logical: bool) -> Result<(), String> {
+    if out.starts_with("panic") || out.starts_with("err") {
+        return Err(format!("the 0x0 matrix must be factored (Ok, empty factors), got {}", &out[..out.len().min(80)]));
+    }
+    let o = Req::parse(&format!("x {}", out)).ok_or("unparsable")?;
+    empty_factors_ok(&fac_of(&o, ""))?;
+    if o.us("Pcolptr") != vec![0] || !o.us("Prowval").is_empty() || !o.fs("Pnzval").is_empty() || !o.us("AtoPAPt").is_empty()
+        || !o.us("etree").is_empty() || !o.us("Lnz").is_empty()
+    {
+        return Err("0x0 matrix: triuA / AtoPAPt / etree / Lnz are not empty".into());
+    }
+    if o.b("sym") != logical {
+        return Err("0x0 matrix: is_symbolic does not echo the logical flag".into());
+    }
+    Ok(())
+}
+
+fn empty_factors_ok(f: &Fac) -> Result<(), String> {
+    if f.lp != vec![0] || !f.li.is_empty() || !f.lx.is_empty() || !f.d.is_empty() || !f.dinv.is_empty() {
+        return Err("0x0 matrix: L / D / Dinv are not empty".into());
+    }
+    if f.inertia != 0 || f.count != 0 {
+        return Err("0x0 matrix: positive_inertia / regularize_count are not 0".into());
+    }
+    Ok(())
+}
+
 fn oracle_new(r: &Req, out: &str) -> Result<(), String> {
     oracle_new_inner(r, out)
 }
@@ -865,7 +893,9 @@ fn oracle_new_inner(r: &Req, out: &str) -> Result<(), String> {
     }
     let n = a.n;
     if n == 0 {
-        return Ok(()); // the empty matrix is outside the property (it panics on D[0] unless logical)
+        // 0×0 ⇒ Ok, empty factors (repaired defect C12-empty-matrix-panic, /repo 6c94e42: `_factor_inner`
+        // read Ap[1] / D[0] of the empty matrix; `C12.empty_matrix_ok`)
+        return empty_state_ok(out, r.b("logical"));
     }
     let plen = r.us("perm").len();
     if plen != n {
@@ -934,10 +964,61 @@ fn oracle_ops(r: &Req, out: &str) -> Result<(), String> {
 fn oracle_ops_inner(r: &Req, out: &str) -> Result<(), String> {
     let a0 = r.csc("");
     let n = a0.n;
-    if !well_formed(&a0) || input_verdict(r).is_some() || n == 0 || r.us("perm").len() != n || ub_guard(r) {
+    if !well_formed(&a0) || input_verdict(r).is_some() || r.us("perm").len() != n || ub_guard(r) {
         return Ok(());
     }
     let nops = r.u("nops");
+    if n == 0 {
+        // 0×0 ⇒ every refactor is Ok with empty factors, every solve of the empty right-hand side returns
+        // the empty vector; any index is out of range (nnz = 0), a non-empty b fails the length assert
+        let mut symbolic = r.b("logical");
+        let mut contract_panic = false;
+        for t in 0..nops {
+            let op = r.str(&format!("op{}", t));
+            if matches!(op, "update" | "scale") && !r.us(&format!("i{}", t)).is_empty() {
+                contract_panic = true;
+            }
+            if op == "offset" {
+                let (i, g) = (r.us(&format!("i{}", t)), r.is(&format!("g{}", t)));
+                if i.len() != g.len() || g.iter().any(|&x| x != 0) {
+                    contract_panic = true;
+                }
+            }
+            if op == "refactor" {
+                symbolic = false;
+            }
+            if op == "solve" && (symbolic || !r.fs(&format!("b{}", t)).is_empty()) {
+                contract_panic = true;
+            }
+        }
+        if out.starts_with("panic") {
+            return if contract_panic { Ok(()) } else { Err(format!("valid history on the 0x0 matrix panicked: {}", out)) };
+        }
+        if out.starts_with("err") {
+            return Err(format!("the 0x0 matrix must be factored (Ok, empty factors), got {}", out));
+        }
+        let o = Req::parse(&format!("x {}", out)).ok_or("unparsable")?;
+        for t in 0..nops {
+            match r.str(&format!("op{}", t)) {
+                "refactor" => {
+                    if o.kv.get(&format!("r{}", t)).map(|s| s.as_str()) != Some("ok") {
+                        return Err(format!("refactor {} of the 0x0 matrix is not Ok", t));
+                    }
+                    empty_factors_ok(&fac_of(&o, &t.to_string()))?;
+                }
+                "solve" => {
+                    if !o.fs(&format!("x{}", t)).is_empty() {
+                        return Err(format!("solve {} on the 0x0 matrix returned a non-empty vector", t));
+                    }
+                }
+                _ => {}
+            }
+        }
+        if !o.fs("Pnzval").is_empty() {
+            return Err("0x0 matrix: triuA.nzval is not empty".into());
+        }
+        return Ok(());
+    }
     // a history with an out-of-range index / a solve on a symbolic factorisation panics by contract
     let nnz = a0.nzval.len();
     let mut symbolic = r.b("logical");
@@ -1695,9 +1776,23 @@ fn gen_units(s: &mut Session) {
     if !s.is_searching() {
         let e = Case { a: CscMatrix { m: 0, n: 0, colptr: vec![0], rowval: vec![], nzval: vec![] }, dsigns: None, expect: None };
         for logical in [false, true] {
-            let o = Opts { enable: true, eps: 1e-12, delta: 1e-7, logical };
-            s.submit(base_line("qdldl.new", &e, &[], None, &o).done());
+            for enable in [true, false] {
+                let o = Opts { enable, eps: 1e-12, delta: 1e-7, logical };
+                s.submit(base_line("qdldl.new", &e, &[], None, &o).done());
+                // AMD on the empty matrix returns the empty ordering
+                s.submit(base_line("qdldl.new", &e, &[], Some(&[]), &o).done());
+                // refactor / solve / empty updates on the empty object (a solve needs a numeric object)
+                let l = base_line("qdldl.ops", &e, &[], None, &o)
+                    .u("nops", 5)
+                    .s("op0", "update").us("i0", &[]).fs("v0", &[])
+                    .s("op1", "refactor")
+                    .s("op2", "solve").fs("b2", &[])
+                    .s("op3", "scale").us("i3", &[]).f("s3", 2.0)
+                    .s("op4", "refactor");
+                s.submit(l.done());
+            }
         }
+        s.count("empty-matrix");
     }
 }
 
